@@ -79,9 +79,11 @@ func seqModels(bases []In) []In {
 	return out
 }
 
-func basesFor(n int, keep func(g graph) bool) []In {
+func basesFor(n int, keep func(g graph) bool) []In { return basesFrom(baseGraphs(n), n, keep) }
+
+func basesFrom(gs []graph, n int, keep func(g graph) bool) []In {
 	var out []In
-	for _, g := range baseGraphs(n) {
+	for _, g := range gs {
 		if keep == nil || keep(g) {
 			out = append(out, g.expand(n))
 		}
@@ -149,6 +151,13 @@ func callSequences(r *mc.Run) {
 	laterBases = append(laterBases, basesFor(1, nil)...)
 	laterBases = append(laterBases, basesFor(2, nil)...)
 	laterBases = append(laterBases, basesFor(3, oneBin(3, 1))...)
+	// self-dependencies: every n=1 graph with the diagonal; the n=2 ones with a self-dependency and at most 2 dependencies
+	laterBases = append(laterBases, basesFrom(enumGraphs(1, true), 1, func(g graph) bool { return g.selfDeps(1) > 0 })...)
+	selfN2 := basesFrom(enumGraphs(2, true), 2, func(g graph) bool {
+		return g.selfDeps(2) > 0 && (g.deps(2) == 1 || (g.deps(2) == 2 && g[0] == 1 && g[1] == 1))
+	})
+	laterBases = append(laterBases, selfN2...)
+	first = append(first, basesFrom(enumGraphs(2, true), 2, func(g graph) bool { return g.selfDeps(2) == 1 && g.deps(2) == 1 })...)
 	later := seqModels(laterBases)
 	archPairs := [][2]string{{"amd64", "i386"}, {"i386", "amd64"}}
 	var lead []In // thorough: a third model in front
